@@ -21,7 +21,13 @@ impl Query {
     async fn leaf_opt(&self) -> Option<Leaf> { Some(Leaf) }
     async fn leaves(&self) -> Vec<Option<Leaf>> { vec![Some(Leaf), Some(Leaf)] }
     async fn leaves_nn(&self) -> Option<Vec<Leaf>> { Some(vec![Leaf, Leaf]) }
+    async fn fatal(&self) -> Result<i32> { Err("fatal".into()) }
+    async fn vec_err(&self) -> Option<Vec<Result<i32>>> { Some(vec![Ok(1), Err("item".into())]) }
 }
+struct NoopExt;
+#[async_graphql::async_trait::async_trait]
+impl async_graphql::extensions::Extension for NoopExt {}
+impl async_graphql::extensions::ExtensionFactory for NoopExt { fn create(&self) -> std::sync::Arc<dyn async_graphql::extensions::Extension> { std::sync::Arc::new(NoopExt) } }
 
 fn dyn_schema() -> dynamic::Schema {
     use dynamic::*;
@@ -41,6 +47,7 @@ fn dyn_schema() -> dynamic::Schema {
 pub fn errors(args: &Value) -> Outcome {
     let q = args["query"].as_str().unwrap();
     let resp = if args["schema"] == "dynamic" { dyn_schema().execute(q).now_or_never().unwrap() }
+               else if args["schema"] == "static_ext" { Schema::build(Query, EmptyMutation, EmptySubscription).extension(NoopExt).finish().execute(q).now_or_never().unwrap() }
                else { Schema::new(Query, EmptyMutation, EmptySubscription).execute(q).now_or_never().unwrap() };
     let data = resp.data.clone().into_json().unwrap();
     let mut paths: Vec<Value> = resp.errors.iter().map(|e| serde_json::to_value(&e.path).unwrap()).collect();
@@ -60,6 +67,12 @@ pub fn inputs(_seed: u64, open: &[String]) -> impl Iterator<Item = Value> {
         json!({"schema": "static", "query": "{ ok leaf { failNn } }", "data": null, "errors": [["leaf", "failNn"]]}),
         json!({"schema": "static", "query": "{ ok leaves { fine failNn } }", "data": {"ok": 1, "leaves": [null, null]}, "errors": [["leaves", 0, "failNn"], ["leaves", 1, "failNn"]]}),
         json!({"schema": "static", "query": "{ leafOpt { a: failOpt b: failOpt fine } }", "data": {"leafOpt": {"a": null, "b": null, "fine": 1}}, "errors": [["leafOpt", "a"], ["leafOpt", "b"]]}),
+        json!({"schema": "static", "query": "{ bad fatal }", "data": null, "errors": [["bad"], ["fatal"]]}),
+        json!({"schema": "static", "query": "{ leafOpt { failNn } b: bad fatal }", "data": null, "errors": [["leafOpt", "failNn"], ["b"], ["fatal"]]}),
+        json!({"schema": "static", "query": "{ ok vecErr }", "data": {"ok": 1, "vecErr": null}, "errors": [["vecErr", 1]]}),
+        json!({"schema": "static_ext", "query": "{ ok vecErr }", "data": {"ok": 1, "vecErr": null}, "errors": [["vecErr", 1]]}),
+        json!({"schema": "static_ext", "query": "{ ok bad }", "data": {"ok": 1, "bad": null}, "errors": [["bad"]]}),
+        json!({"schema": "static_ext", "query": "{ ok leaves { fine failNn } }", "data": {"ok": 1, "leaves": [null, null]}, "errors": [["leaves", 0, "failNn"], ["leaves", 1, "failNn"]]}),
         json!({"schema": "dynamic", "query": "{ ok }", "data": {"ok": 1}, "errors": []}),
         json!({"schema": "dynamic", "query": "{ ok leaf { fine } }", "data": {"ok": 1, "leaf": {"fine": 1}}, "errors": []}),
     ];
